@@ -208,6 +208,16 @@ def build_family(tier, seed):
             exhaustive = False if not ex else exhaustive
             for st in structs:
                 cases += expand_pair(sym, st, rng, generic, 3, 3 if not thorough else 8, ("blockwise", "fused"))
+        if sym in ("Z2", "U1") and not generic:
+            # rank-4 x rank-3 over two pairs, single-missing sparsity patterns
+            structs = fam.pair_structs(sym, 4, 3, two[:1], two[:1], ks=(2,))
+            structs, _ = fam.thin(structs, 80 if not thorough else 800, seed + 431)
+            r4 = []
+            for st in structs:
+                for A, B, axes, ex2 in fam.expand_pair(sym, st, rng, generic=generic, fermionic=False, max_pairs=5, sparsity_threshold=2):
+                    r4.append(dict(a=A, b=B, axes=axes, modes=("blockwise", "fused"), preserve=(True,), exhaustive=False, complex=False))
+            r4, _ = fam.thin(r4, 1500 if not thorough else 15000, seed + 5)
+            groups[f"tensordot-rank4/{sym}"] = ([dict(body="body_tensordot", spec=c, seed=seed + i) for i, c in enumerate(r4)], False)
         cases, ex = fam.thin(cases, 6000 if not thorough else 60000, seed)
         exhaustive &= ex
         name = f"tensordot/{sym}{'-generic' if generic else ''}"
